@@ -568,10 +568,10 @@ fn run_preference(ctx: &Ctx) {
 fn run_legacy(ctx: &Ctx) {
     // Symbol: format 4 at 0xF020.. with usFirstCharIndex = 0xF020, and at 0x20.. with usFirstCharIndex 0x20
     for &(first, base) in &[(0xF020u16, 0xF000u32), (0x20u16, 0u32)] {
-        let segs = [Seg4::Delta { start: first, end: first + 0x5F, delta: (1i32 - first as i32) as i16 }];
+        let segs = [Seg4::Delta { start: first, end: first + 0xDF, delta: (1i32 - first as i32) as i16 }];
         let (sub, model) = cmapenc::fmt4(&segs, Term4::Standard);
         let cmap = tables::cmap_table(&[(3, 0, sub)]);
-        let font = tables::minimal_font(100, &[], &[(tag(b"cmap"), cmap), (tag(b"OS/2"), tables::os2_v4(first, first + 0x5F))]);
+        let font = tables::minimal_font(100, &[], &[(tag(b"cmap"), cmap), (tag(b"OS/2"), tables::os2_v4(first, first + 0xDF))]);
         let r = guard(|| {
             crate::util::with_font(&font, |f| {
                 let mut v = Vec::new();
